@@ -141,3 +141,25 @@ Definition outages (b : backoff) (ms : list Z) : list (list outcome) :=
 
 (* the value resume() declares (stream_manager.go: var backoff backoff) *)
 Definition stream_manager_backoff : backoff := mkBackoff false 0 0 0 0.
+
+(* ONE backoff value driven through its three operations in any order (the header of
+   backoff.go: "Keep the attempt counter on your end and use durationForAttempt(int)" -
+   the per-attempt query may be asked for any attempt number at any time, between waits and
+   resets).  [run_ops b ops]: the value after the operations and the delay of every call
+   that returns one. *)
+Inductive op :=
+| OQuery (n r : Z)     (* durationForAttempt(n), oracle value r *)
+| OWait (r : Z)        (* duration() *)
+| OReset.              (* reset() *)
+
+Fixpoint run_ops (b : backoff) (ops : list op) : backoff * list outcome :=
+  match ops with
+  | [] => (b, [])
+  | OQuery n r :: t =>
+      let '(b1, o) := dur_for_attempt b n r in
+      let '(b2, os) := run_ops b1 t in (b2, o :: os)
+  | OWait r :: t =>
+      let '(b1, o) := duration b r in
+      let '(b2, os) := run_ops b1 t in (b2, o :: os)
+  | OReset :: t => run_ops (reset b) t
+  end.
